@@ -161,6 +161,29 @@ func htmlBoundaryInputs() []string {
 				add(v + strings.Repeat("a", n-len(v)))
 			}
 		}
+		// constructs at offsets and behind token counts around the 8- and 16-bit boundaries
+		ovec := []string{"<script>", "<a href=javascript:x>", " onerror=1 ", "' onclick=1 '", "<!--x--><svg onload=1>", "<a b='c' style=x>", "<![CDATA[x]]><iframe>", "<?import x>", "<a href=&#106;avascript:x>", "`><xss>"}
+		for _, n := range []int{250, 251, 252, 253, 254, 255, 256, 257, 258, 259, 260, 511, 512, 513, 65534, 65535, 65536, 65537} {
+			for vi, v := range ovec {
+				if n > 1000 && vi > 3 {
+					break
+				}
+				add(strings.Repeat("a", n) + v)
+				add("<!--" + strings.Repeat("a", n-7) + "-->" + v)
+				add("<a title='" + strings.Repeat("a", n-12) + "'>" + v)
+				add("<a " + strings.Repeat(" ", n-3) + v)
+				add("<a b=" + strings.Repeat("a", n-5) + v)
+				add(strings.Repeat("a", n-1) + "'" + v)
+			}
+		}
+		for _, n := range []int{6, 7, 8, 15, 16, 17, 31, 32, 33, 63, 64, 65, 127, 128, 129, 255, 256, 257, 1023, 1024, 1025} {
+			for _, v := range ovec[:6] {
+				for _, unit := range []string{"<b>", "<b/>", "</b>", "a=b ", "a='b' ", "<!---->", "<b c=d>", "x>", "<b c>"} {
+					add(strings.Repeat(unit, n) + v)
+					add("<a " + strings.Repeat(unit, n) + v)
+				}
+			}
+		}
 		// numeric character references at every decoder limit inside URL attribute values, not in leading position
 		for _, ref := range decoderBoundaryRefs() {
 			add("<a href=\"x" + ref + "\">")
